@@ -1251,6 +1251,12 @@ def run_dry_world(scn, prop):
                     # left-over bytecode in the legacy location: foreign magic / truncated header
                     with open(os.path.join(dest, n + '.pyc'), 'wb') as f:
                         f.write(b'\x03\xf3\r\n\x00\x00\x00\x00' if len(n) % 2 else b'\x00\x01')
+            if scn['dest'] == 'populated':
+                # temporary files left behind by an interrupted earlier run, days old and fresh
+                for fn_, age_ in (('tmpk3w9x_2a', 3 * 86400), ('tmpzz81ab3c', 40 * 86400), ('tmp0a1b2c3d', 5)):
+                    with open(os.path.join(dest, fn_), 'w') as f:
+                        f.write('half-written output of an interrupted run\n')
+                    os.utime(os.path.join(dest, fn_), (core.EPOCH0 - age_, core.EPOCH0 - age_))
             if scn.get('old_index') and scn['dest'] != 'missing':
                 doc = json.dumps({'compliance': {}, 'enterprise': {'1.3.6.1.4.1.9': ['OLD-MIB']}, 'identity': {'1.3.6.1.4.1.9.1': ['OLD-MIB']}, 'meta': {}, 'oids': {'1.3.6.1.4.1.9': ['OLD-MIB']}}, indent=2)
                 body = {'valid': doc, 'truncated': doc[:len(doc) // 2], 'garbage': 'this is not an index @@@\n', 'list': '[1, 2, 3]\n'}[scn['old_index']]
